@@ -58,6 +58,12 @@ class InitMethod(MethodDescriptor):
                             continue
                         if attr in kwargs:
                             parent_kwargs[attr] = kwargs.pop(attr)
+                            # Parent constructors do not copy incoming values (see
+                            # `copy_required` below), so protect them here.
+                            if not instance_attr_spec.do_not_copy:
+                                parent_kwargs[attr] = protect_via_deepcopy(
+                                    parent_kwargs[attr]
+                                )
                         else:
                             # Parent constructor may may be overridden, and not pick up
                             # subclass defaults. We pre-emptively solve this here.
